@@ -11,6 +11,11 @@ for d in sorted(glob.glob("/verif/seeded/*")):
     caught = [l.split()[1].split("=")[1] for l in res.splitlines() if l.startswith("VIOLATION")]
     nofound = any("no-failing-input-found" in l for l in res.splitlines())
     ran = [l.split()[0] for l in res.splitlines() if " tier=" in l]
+    if m.get("kind") == "out-of-quantifier":
+        rows.append("| %s | %s | %s | %s |" % (name, (m.get("clause_broken") or "")[:110].replace("|", "/").replace("\n", " "),
+                                             (m.get("what_it_needs_to_manifest") or "")[:150].replace("|", "/").replace("\n", " "),
+                                             "outside the property's quantifier: " + m.get("out_of_quantifier", "")[:160] + (" (own check: %s)" % ("alarm" if caught else "quiet"))))
+        continue
     harmless = m.get("kind") == "harmless"
     if harmless:
         concrete = [l for l in res.splitlines() if l.startswith("VIOLATION") and "no-failing-input-found" not in l]
